@@ -11,7 +11,7 @@ cd /verif
 mkdir -p /tmp/eqlogs
 for k in $(seq 1 $LANES); do
   git -C /repo worktree remove --force /tmp/mut/lane$k 2>/dev/null; rm -rf /tmp/mut/lane$k
-  git -C /repo worktree add --detach -q /tmp/mut/lane$k HEAD || exit 1
+  git -C /repo worktree add --detach -q /tmp/mut/lane$k ${BASE:-HEAD} || exit 1
 done
 job() {
   MODE="$1"; d="$2"; id="$3"
